@@ -151,8 +151,5 @@ func TestC02(t *testing.T) {
 	if e1Replayer(scs, col) {
 		return
 	}
-	item := 0
-	for _, sc := range scs {
-		e1Explore(sc, col, &item)
-	}
+	e1ExploreTiers(c02Scenarios, nil, col)
 }
